@@ -5,11 +5,16 @@ package apisim
 
 import (
 	"context"
+	"fmt"
 	"sync"
+	"sync/atomic"
 
 	corev1 "k8s.io/api/core/v1"
+	apierrors "k8s.io/apimachinery/pkg/api/errors"
 	"k8s.io/apimachinery/pkg/fields"
 	"k8s.io/apimachinery/pkg/runtime"
+	"k8s.io/apimachinery/pkg/runtime/schema"
+	k8stypes "k8s.io/apimachinery/pkg/types"
 	"sigs.k8s.io/controller-runtime/pkg/client"
 	"sigs.k8s.io/controller-runtime/pkg/client/fake"
 	"sigs.k8s.io/controller-runtime/pkg/client/interceptor"
@@ -27,8 +32,10 @@ type Hooks struct {
 	BeforeList   func(ctx context.Context, list client.ObjectList) error
 	BeforeWrite  func(ctx context.Context, verb string, obj client.Object) error // create/update/patch/delete/status-update/status-patch
 	AfterWrite   func(ctx context.Context, verb string, obj client.Object) error
-	ObserveWrite func(verb string, before, after client.Object) // after a successful write, before==nil for create, after==nil for delete
+	ObserveWrite func(verb string, before, after client.Object) // after a successful write, before==nil for create, after==nil once the object is gone
 }
+
+var uidSeq atomic.Int64
 
 func (h *Hooks) get() Hooks {
 	h.mu.Lock()
@@ -74,14 +81,21 @@ func New(hooks *Hooks, objs ...client.Object) client.WithWatch {
 		if h.ObserveWrite != nil && verb != "create" {
 			before = snapshot(ctx, c, obj)
 		}
+		// fidelity: a real API server rejects an update whose metadata.uid is not the stored object's (the
+		// name was reused by a new object); the fake client compares resourceVersions only, and those restart
+		// at 1 for every new object
+		if verb == "update" || verb == "status-update" {
+			if cur := snapshot(ctx, c, obj); cur != nil && obj.GetUID() != "" && cur.GetUID() != "" && obj.GetUID() != cur.GetUID() {
+				return apierrors.NewConflict(schema.GroupResource{Resource: "objects"}, obj.GetName(), fmt.Errorf("Precondition failed: UID in precondition: %s, UID in object meta: %s", obj.GetUID(), cur.GetUID()))
+			}
+		}
 		if err := do(); err != nil {
 			return err
 		}
 		if h.ObserveWrite != nil {
-			var after client.Object
-			if verb != "delete" {
-				after = snapshot(ctx, c, obj)
-			}
+			// (a delete of an object that carries finalizers leaves it in place with a deletionTimestamp; an
+			// update that removes the last finalizer of such an object removes it: after is nil then)
+			after := snapshot(ctx, c, obj)
 			h.ObserveWrite(verb, before, after)
 		}
 		if h.AfterWrite != nil {
@@ -133,6 +147,9 @@ func New(hooks *Hooks, objs ...client.Object) client.WithWatch {
 			return write(ctx, c, "create", obj, func() error {
 				// fidelity: a real API server drops .status on create for kinds with a status subresource
 				stripStatus(obj)
+				if obj.GetUID() == "" {
+					obj.SetUID(k8stypes.UID(fmt.Sprintf("sim-uid-%d", uidSeq.Add(1))))
+				}
 				return c.Create(ctx, obj, opts...)
 			})
 		},
@@ -143,7 +160,19 @@ func New(hooks *Hooks, objs ...client.Object) client.WithWatch {
 			return write(ctx, c, "patch", obj, func() error { return c.Patch(ctx, obj, patch, opts...) })
 		},
 		Delete: func(ctx context.Context, c client.WithWatch, obj client.Object, opts ...client.DeleteOption) error {
-			return write(ctx, c, "delete", obj, func() error { return c.Delete(ctx, obj, opts...) })
+			return write(ctx, c, "delete", obj, func() error {
+				// fidelity: the fake client honours only the resourceVersion precondition; a real API server
+				// also checks the UID precondition
+				do := &client.DeleteOptions{}
+				do.ApplyOptions(opts)
+				if do.Preconditions != nil && do.Preconditions.UID != nil {
+					cur := obj.DeepCopyObject().(client.Object)
+					if err := c.Get(ctx, client.ObjectKeyFromObject(obj), cur); err == nil && cur.GetUID() != *do.Preconditions.UID {
+						return apierrors.NewConflict(schema.GroupResource{Resource: "objects"}, obj.GetName(), fmt.Errorf("Precondition failed: UID in precondition: %s, UID in object meta: %s", *do.Preconditions.UID, cur.GetUID()))
+					}
+				}
+				return c.Delete(ctx, obj, opts...)
+			})
 		},
 		SubResourceUpdate: func(ctx context.Context, c client.Client, sub string, obj client.Object, opts ...client.SubResourceUpdateOption) error {
 			return write(ctx, c.(client.WithWatch), "status-update", obj, func() error { return c.SubResource(sub).Update(ctx, obj, opts...) })
